@@ -799,6 +799,20 @@ def _rebase_symmetry(ck, p, rule, byk, lf, lcfg, lpv, gets, puts):
         chunk_src = frozenset(x for x in flatten(gpv.trace_operand(site[1]["args"][1])) if x[0] in ("call", "arg"))
         pulls = [(bi, t) for bi, t in g.calls() if inst_of(t) == PULL]
         pushes = [(bi, t) for bi, t in g.calls() if inst_of(t) == PUSH]
+        # the shift may sit in a closure of an adaptor (extend(lints.into_iter().map(|mut l| { l.span.push_by(base); l })))
+        from ..common import captured_operand
+        cl_sites = {}
+        for c in p.closures_of(g.name):
+            cpv = Prov(c)
+            for cb, ct in c.calls():
+                if inst_of(ct) in (PULL, PUSH):
+                    cap = captured_operand(p, c, cpv, ct["args"][1])
+                    if cap and cap[0] is g:
+                        host_bb = [bi for bi, b in enumerate(g.blocks) for sx in b["s"] if sx["k"] == "assign" and sx["rv"]["k"] == "agg" and sx["rv"].get("name") == c.name]
+                        fake = dict(ct)
+                        fake["args"] = [ct["args"][0], cap[1]]
+                        fake["_closure"] = c.name
+                        (pulls if inst_of(ct) == PULL else pushes).append((host_bb[0] if host_bb else 0, fake))
         key = "chunk-cache:rebase" if g is lf else "%s:rebase" % keyname(p, g)
         if len(pulls) > 1 or len(pushes) > 1 or len(c_pulls) > 1 or c_pushes:
             ck.undecided(rule, key, g.span, "(d) more than one pull_by / push_by site (here %d/%d, in run_on_chunk %d/%d)" % (len(pulls), len(pushes), len(c_pulls), len(c_pushes)))
@@ -843,6 +857,12 @@ def _rebase_symmetry(ck, p, rule, byk, lf, lcfg, lpv, gets, puts):
             before_put = gcfg.dominates(pull_h, puts[0][0]) and pull_h != puts[0][0]
             after_put = gcfg.every_path_passes(puts[0][0], [push_h], to=[x for x, _ in apps])[0]
             after_hit = gcfg.every_path_passes(gets[0][0], [push_h], to=[x for x, _ in apps])[0]
+            if not (after_put and after_hit) and pushes[0][1].get("_closure"):
+                # the shift is applied by the adaptor that feeds results.extend(..): every element that gets in is shifted
+                cname = pushes[0][1]["_closure"]
+                fed = [x for x, t_ in apps if _closure_feeds(g, gpv, t_, cname)]
+                if fed and len(fed) == len(apps):
+                    after_put = after_hit = True
             ok = before_put and after_put and after_hit and bool(apps)
             ck.decide(rule, key, ok, g.span, "(d) " + detail + "; pull_by precedes put=%s; push_by lies on every path from put and from the lookup to results.append=%s/%s" % (before_put, after_put, after_hit))
         elif g is lf and gets and puts:
@@ -855,3 +875,20 @@ def _rebase_symmetry(ck, p, rule, byk, lf, lcfg, lpv, gets, puts):
             ck.decide(rule, key, after_put and after_hit and bool(apps), g.span, "(d) " + detail + "; push_by lies on every path from put and from the lookup to results.append=%s/%s" % (after_put, after_hit))
         else:
             ck.proved(rule, key, g.span, "(d) " + detail)
+
+
+def _closure_feeds(g, gpv, t, cname):
+    """is the closure `cname` part of the adaptor chain that produces an argument of call t?"""
+    seen = set()
+    work = [a for a in t["args"]]
+    while work:
+        a = work.pop()
+        for o in gpv.trace_operand(a):
+            if o in seen:
+                continue
+            seen.add(o)
+            if o[0] == "agg" and o[1] == "closure" and o[2] == cname:
+                return True
+            if o[0] == "call":
+                work += list(g.blocks[o[1]]["t"]["args"])
+    return False
